@@ -1,0 +1,64 @@
+//go:build verif
+
+// Copyright 2026 The Scriggo Authors. All rights reserved.
+// Use of this source code is governed by a BSD-style
+// license that can be found in the LICENSE file.
+
+// Package c05 is a verification bridge (build tag "verif") that exposes to
+// the external correspondence harness of property C05 the recover point of
+// the virtual machine (every recovered Go panic with the executing
+// operation, its payload class and what convertPanic made of it), the real
+// convertPanic on synthetic payloads, a renderer driven by a sequence of
+// Text/Show calls and swapStack. It adds no behaviour.
+package c05
+
+import (
+	"io"
+
+	"github.com/open2b/scriggo"
+	"github.com/open2b/scriggo/internal/runtime"
+)
+
+type (
+	Fault     = runtime.VerifC05Fault
+	Result    = runtime.VerifC05Result
+	URLCall   = runtime.VerifC05URLCall
+	URLState  = runtime.VerifC05URLState
+	CallShape = runtime.VerifC05CallShape
+)
+
+// RunProgram executes p through the real interpreter loop, recording faults.
+func RunProgram(p *scriggo.Program, print scriggo.PrintFunc) Result {
+	return scriggo.VerifC05RunProgram(p, print)
+}
+
+// RunTemplate executes t through the real interpreter loop, recording faults.
+func RunTemplate(t *scriggo.Template, out io.Writer, vars map[string]any, print scriggo.PrintFunc) Result {
+	return scriggo.VerifC05RunTemplate(t, out, vars, print)
+}
+
+// ProgramShape returns NumReg and stack shifts of the function name of p.
+func ProgramShape(p *scriggo.Program, name string) CallShape {
+	return scriggo.VerifC05ProgramShape(p, name)
+}
+
+// Classify calls the real convertPanic on a synthetic payload.
+func Classify(op int, hasFn, nativeCallee bool, class, msg string) (outcome, panicked string) {
+	return runtime.VerifC05Classify(op, hasFn, nativeCallee, class, msg)
+}
+
+// OpNames returns the operations by name.
+func OpNames() map[string]int { return runtime.VerifC05OpNames() }
+
+// URL drives a real renderer with calls.
+func URL(calls []URLCall) (chunks [][]string, states []URLState, panicked int, panicMsg string) {
+	return runtime.VerifC05URL(calls)
+}
+
+// Escape returns what pathEscape, queryEscape or htmlEscape write for s.
+func Escape(which, s string, quoted bool) string { return runtime.VerifC05Escape(which, s, quoted) }
+
+// SwapStack calls the real swapStack.
+func SwapStack(stackLen int, a, b [4]uint32, bSize [4]int8) (na, nb [4]uint32, stacks [4][]int, panicMsg string) {
+	return runtime.VerifC05SwapStack(stackLen, a, b, bSize)
+}
